@@ -3,6 +3,7 @@
    audit of the panic-capable sites found by harness/cmd/gen_panics (Gen/PanicSites.v is REGENERATED from
    /repo on every run), and non-vacuity examples. *)
 From Sekai Require Import Base.Prelude Base.Dec Model.Halt Model.C06Check Proofs.Halt Gen.PanicSites.
+Local Open Scope string_scope.
 Local Open Scope Z_scope.
 
 (* ================= the full statement on the modelled modules, and why it is refuted ================= *)
@@ -102,6 +103,19 @@ Theorem C06_distribution_outgrows_pool_refuted : exists poolbal rate w cstart la
 Proof. exact distribution_outgrows_pool_refuted. Qed.
 Print Assumptions C06_distribution_outgrows_pool_refuted.
 
+(* ---------------- UBI *)
+Theorem C06_ubi_mint_safe_partial : forall amount, 0 <= amount < two63 -> is_panic (ubi_mint amount) = false.
+Proof. exact ubi_mint_safe. Qed.
+Print Assumptions C06_ubi_mint_safe_partial.
+Theorem C06_ubi_amount_wraps_refuted : exists ubi_sum amount period hardcap, 0 <= amount < two64 /\
+  is_ok (ubi_apply ubi_sum amount period hardcap) = true /\ ubi_mint amount = Panic "neg-coin".
+Proof. exact ubi_amount_wraps_refuted. Qed.
+Print Assumptions C06_ubi_amount_wraps_refuted.
+Theorem C06_ubi_period_zero_filtered : forall ubi_sum amount hardcap s1 s2,
+  lifecycle (fun _ : unit => do _ <- ubi_apply ubi_sum amount 0 hardcap; Ok tt) s1 s2 = None.
+Proof. exact ubi_period_zero_filtered. Qed.
+Print Assumptions C06_ubi_period_zero_filtered.
+
 (* ---------------- staking, fee collector, upgrade *)
 Theorem C06_staking_updates_never_panic : forall ops s, v_inv s = true -> exists s', vrun ops s = Ok s' /\ v_inv s' = true.
 Proof. exact staking_updates_never_panic. Qed.
@@ -145,6 +159,8 @@ Definition covered_table : list (string * string * nat * string) := [
   ("x/spending/keeper.Keeper.EndBlocker", "quo", 1%nat, "Halt.spend_pool_step (dquo): reachable, finding EndBlocker:div-by-zero");
   ("x/spending/keeper.Keeper.EndBlocker", "newcoin", 1%nat, "Halt.new_dec_coin: reachable, finding EndBlocker:neg-deccoin");
   ("x/staking/keeper.Keeper.BlockValidatorUpdates", "panic", 1%nat, "Halt.vend: unreachable under v_inv (staking_updates_never_panic): queues only receive keys of existing validators and validators are never deleted");
+  ("x/ubi.ApplyUpsertUBIProposalHandler.Apply", "div", 3%nat, "Halt.ubi_apply: division by Period is input-only: Period = 0 panics in the dry run and fails the submission (ubi_period_zero_filtered); record.Period of stored records is therefore non-zero");
+  ("x/ubi/keeper.Keeper.ProcessUBIRecord", "newcoin", 1%nat, "Halt.ubi_mint: reachable, finding ProcessUBIRecord:neg-coin (amount >= 2^63 passes the wrapping hard-cap check)");
   ("x/upgrade/keeper.Keeper.ApplyUpgradePlan", "panic", 3%nat, "Halt.upgrade_begin: the sanctioned halt (upgrade_halt_only_when_due); PauseProposalNotApprovedValidators errs only for a missing proposal (never deleted)")
 ].
 Definition audit_table : list (string * string * nat * string) := [
@@ -408,10 +424,8 @@ Definition audit_table : list (string * string * nat * string) := [
   ("x/tokens/keeper.removeTokens", "index", 2%nat, "map lookup or index bounded by the enclosing loop / length check");
   ("x/ubi.ApplyRemoveUBIProposalHandler.Apply", "assert", 1%nat, "proposal content assertion inside its own handler: the router dispatches on ProposalType() of the same content, so the dynamic type matches");
   ("x/ubi.ApplyUpsertUBIProposalHandler.Apply", "assert", 1%nat, "proposal content assertion inside its own handler: the router dispatches on ProposalType() of the same content, so the dynamic type matches");
-  ("x/ubi.ApplyUpsertUBIProposalHandler.Apply", "div", 3%nat, "division by Period: input-only, Period = 0 panics in the dry run and fails the submission (input_only_panics_filtered)");
   ("x/ubi/keeper.Keeper.GetUBIRecordByName", "must", 1%nat, "decodes bytes (or re-parses an address) that this module stored itself with the matching Marshal; layer2 TeamReserve / basket denoms validated at creation -- audited by kind");
   ("x/ubi/keeper.Keeper.ProcessUBIRecord", "sub", 1%nat, "sdk.Int arithmetic: no panic");
-  ("x/ubi/keeper.Keeper.ProcessUBIRecord", "newcoin", 1%nat, "amount is a product/fraction of non-negative stored amounts; denom validated at creation");
   ("x/ubi/keeper.Keeper.SetUBIRecord", "must", 1%nat, "decodes bytes (or re-parses an address) that this module stored itself with the matching Marshal; layer2 TeamReserve / basket denoms validated at creation -- audited by kind");
   ("x/upgrade.ApplySoftwareUpgradeProposalHandler.Apply", "assert", 1%nat, "proposal content assertion inside its own handler: the router dispatches on ProposalType() of the same content, so the dynamic type matches");
   ("x/upgrade/keeper.Keeper.ApplyUpgradePlan", "index", 1%nat, "map lookup or index bounded by the enclosing loop / length check");
